@@ -11,6 +11,7 @@ E9  in every arm of the expression / statement lowering, the environment effects
     environment at the arm's exit (no child runs on a copy that is thrown away)
 E8  mux_envs re-creates every scope and re-binds every binding as a fresh vector of push_mux(condition, a[i], b[i]);
     no scope or binding can be skipped and the result's storage is never written directly
+E10 cross-reference: the accessor copy of the array read tree agrees with the expression copy (C01-V8)
 """
 from .. import mir, protocol
 from ..core import AnchorMissing, Finding, RuleResult
@@ -578,5 +579,17 @@ def rule_e7(ctx):
     return res
 
 
+def rule_e10(ctx):
+    """Cross-reference: the base element read for `a[i].f = v` is the element a read of a[i] yields (C01-V8), else sibling fields of a[i] change."""
+    from . import C01
+    res = RuleResult("E10", "assignment through an array accessor reads the same element a read would (cross-reference to C01-V8)")
+    v8 = C01.rule_v8(ctx)
+    for x in v8.findings:
+        res.bad(Finding("E10", x.fn, x.site, x.message, x.span))
+    if not v8.findings:
+        res.ok({"verdict": "C01-V8 holds"})
+    return res
+
+
 def run(ctx):
-    return ctx.run_rules([rule_e1, rule_e2, rule_e3, rule_e4, rule_e5, rule_e6, rule_e7, rule_e8, rule_e9])
+    return ctx.run_rules([rule_e1, rule_e2, rule_e3, rule_e4, rule_e5, rule_e6, rule_e7, rule_e8, rule_e9, rule_e10])
